@@ -211,19 +211,27 @@ Theorem C07_enum_designated_items : forall refs (ex : list ex_item),
 Proof. exact enum_designated_items. Qed.
 Print Assumptions C07_enum_designated_items.
 
-(* known finding loclists-tail-at-unit-end: the v5 walk of iter_location_lists leaves a unit block
-   when the stream reaches its end, so a designated tail of the block's LAST list is fetched correctly
-   but not visited by the enumeration (the model mirrors the code) *)
+(* finding loclists-tail-at-unit-end (repaired in /repo, known_findings.d/C07.json): the v5 walk of
+   iter_location_lists left a unit block as soon as the stream reached its end, so a designated tail of
+   the block's LAST list was fetched correctly but not visited by the enumeration.
+   iter_location_lists_unfixed is the walk before the repair. *)
 Theorem C07_loclists_tail_at_unit_end_refuted :
   get_location_list_at_offset LLE_TABLES tail_S 5 tail_loclists 17 (Some (cuinfo_of (hd (Build_cuview 0 false 0 []) tail_cus)))
     = Ok (lle_meaning true 4 [] 17 [LBaseAddress 0x1000])
   /\ enum_designated [12; 17] tail_items
      = [lle_meaning true 4 [] 12 [LOffsetPair (1, 0%nat) (2, 0%nat) (0%nat, [0x50]); LBaseAddress 0x1000];
         lle_meaning true 4 [] 17 [LBaseAddress 0x1000]]
-  /\ iter_location_lists LLE_TABLES gen_loclists_CU_header gen_locview_pair tail_S 5 tail_loclists tail_cus
+  /\ iter_location_lists_unfixed LLE_TABLES gen_loclists_CU_header gen_locview_pair tail_S 5 tail_loclists tail_cus
      = Ok [lle_meaning true 4 [] 12 [LOffsetPair (1, 0%nat) (2, 0%nat) (0%nat, [0x50]); LBaseAddress 0x1000]].
 Proof. exact tail_at_unit_end. Qed.
 Print Assumptions C07_loclists_tail_at_unit_end_refuted.
+
+(* the repaired walk (the model of the code as it is now) visits both lists *)
+Theorem C07_loclists_tail_at_unit_end_visited :
+  iter_location_lists LLE_TABLES gen_loclists_CU_header gen_locview_pair tail_S 5 tail_loclists tail_cus
+  = Ok (enum_designated [12; 17] tail_items).
+Proof. exact tail_at_unit_end_fixed. Qed.
+Print Assumptions C07_loclists_tail_at_unit_end_visited.
 
 (* ================================================================== any call order (Model/C07Session.v)
    The objects DWARFInfo.location_lists()/range_lists() hand out share one stream per section with the
